@@ -172,6 +172,7 @@ class FunTr:
     aliases = {}                 # local/global name -> dotted module path it is bound to by an import
     function_locals = frozenset()  # every name the function assigns anywhere (reads of them never fall through to globals)
     protected = frozenset()      # names the translation relies on: never assignable
+    mutable_types = frozenset()  # type tags of objects that can be changed in place (aliasing is refused)
 
     def __init__(self, file, source):
         self.file = file
@@ -487,6 +488,12 @@ class FunTr:
             B = []
             if isinstance(t, ast.Name):
                 v = self.expr(s.value, env, B)
+                if v.ty in self.mutable_types and isinstance(s.value, (ast.Name, ast.Subscript, ast.Attribute)):
+                    # two names for one mutable object: a later in-place change through one would be visible through the
+                    # other, which the functional translation cannot express
+                    self.bail(s, "`%s` binds a second name to (a view of) a mutable %s" % (src_of(s)[:60], v.ty))
+                if v.extra == "param":
+                    v = Val(v.term, v.ty, "param")
                 pre, env2 = self.assign(t.id, v, env, s)
                 return self.wrap(B, pre + after(env2))
             if isinstance(t, ast.Subscript) and isinstance(t.value, ast.Name):
@@ -495,6 +502,8 @@ class FunTr:
                 cont = self.expr(t.value, env, B)
                 if t.value.id not in env:
                     self.bail(s, "store into `%s`, which is not a local" % t.value.id)
+                if cont.extra == "param":
+                    self.bail(s, "`%s` changes an argument object in place (visible to the caller; not modelled)" % src_of(s)[:60])
                 new = self.store(cont, t.slice, val, s, env, B)
                 pre, env2 = self.assign(t.value.id, new, env, s)
                 return self.wrap(B, pre + after(env2))
@@ -507,6 +516,8 @@ class FunTr:
             l = self.expr(ast.copy_location(ast.Name(id=s.target.id, ctx=ast.Load()), s), env, B)
             if s.target.id not in env:
                 self.bail(s, "augmented assignment to `%s`, which is not a local" % s.target.id)
+            if l.extra == "param" and l.ty in self.mutable_types:
+                self.bail(s, "`%s` changes an argument object in place (visible to the caller; not modelled)" % src_of(s)[:60])
             r = self.expr(s.value, env, B)
             v = self.augop(s.op, l, r, s)
             pre, env2 = self.assign(s.target.id, v, env, s)
@@ -737,6 +748,27 @@ def forbid_dynamic(fn, file):
             raise TranslateError(file, n, "%s statement/expression" % type(n).__name__)
         if isinstance(n, (ast.FunctionDef, ast.AsyncFunctionDef, ast.ClassDef)) and n is not fn:
             raise TranslateError(file, n, "nested definition of `%s`" % n.name)
+
+
+def builtins_unshadowed(mod, file, names):
+    """the builtins the translation gives a meaning to are not rebound anywhere in the module"""
+    for n in ast.walk(mod):
+        bound = []
+        if isinstance(n, (ast.Import, ast.ImportFrom)):
+            bound = [(a.asname or a.name).split(".")[0] for a in n.names]
+        elif isinstance(n, (ast.FunctionDef, ast.AsyncFunctionDef, ast.ClassDef)):
+            bound = [n.name]
+        elif isinstance(n, ast.Name) and isinstance(n.ctx, (ast.Store, ast.Del)):
+            bound = [n.id]
+        elif isinstance(n, ast.arg):
+            bound = [n.arg]
+        elif isinstance(n, (ast.Global, ast.Nonlocal)):
+            bound = list(n.names)
+        elif isinstance(n, ast.ExceptHandler) and n.name:
+            bound = [n.name]
+        for b in bound:
+            if b in names:
+                raise TranslateError(file, n, "builtin `%s` is rebound in the module" % b)
 
 
 def leading_imports(fn, file, allowed):
